@@ -1083,7 +1083,25 @@ func checkChecksumUtils(w *World, r *Run, who string) {
 				}
 			}
 		})
-		r.Check(disp != nil && waits == 2 && order, ruleWriter, "parallelHashWriter.Flush dispatches then waits for both buffers", ff.Pos(), "dispatchActive(); wgs[0].Wait(); wgs[1].Wait()", "Flush does not dispatch the buffered tail before waiting, or does not wait for both buffers: Sum can run while a worker still hashes")
+		// no way out of Flush without both waits: with nothing buffered the previous block may
+		// still be in flight
+		var waitCalls []ssa.Instruction
+		allInstrs(ff, false, func(_ *ssa.Function, ins ssa.Instruction) {
+			if c, ok := ins.(*ssa.Call); ok && isCallNamed(c, "Wait") {
+				waitCalls = append(waitCalls, c)
+			}
+		})
+		for _, ret := range returnsOf(ff) {
+			if ret.Block() == ff.Recover {
+				continue
+			}
+			for _, wc := range waitCalls {
+				if !instrDominates(wc, ret) {
+					order = false
+				}
+			}
+		}
+		r.Check(disp != nil && waits == 2 && order, ruleWriter, "parallelHashWriter.Flush dispatches then waits for both buffers", ff.Pos(), "dispatchActive(); wgs[0].Wait(); wgs[1].Wait()", "Flush does not dispatch the buffered tail before waiting, or does not wait for both buffers on every path (an early return when nothing is buffered skips the wait for the block still in flight): Sum can run while a worker still hashes")
 	}
 	if df := w.SSAFunc(relChecksum, "parallelHashWriter.dispatchActive"); df == nil {
 		r.Anchor(ruleWriter, "parallelHashWriter.dispatchActive")
